@@ -6,9 +6,11 @@ concerned (compressor_pools.go:44-50, 70-83; compressor_cache.go:25-42, 66-87).
 
 What the model carries is the glue:
   * which decoder is installed for which `Content-Encoding` VALUE (exact string comparison),
-  * which reader is selected for which `Content-Type` SPELLING (exact key, then any registered key
-    that is a substring — Go map iteration order, so the answer is the SET of possible readers),
-    the default fallback, the 400 when there is none,
+  * which reader is selected for which `Content-Type` SPELLING (exact key; else, among the
+    registered keys that occur in the value, the one whose first occurrence is earliest, the longer
+    of two that start at the same position — `Str.firstLongest`, repair 8b400b4 of the former
+    finding F62: a function of the value, whatever the iteration order of the Go map), the default
+    fallback, the 400 when there is none,
   * `UseNumber` as a flag of the JSON reader,
   * the pooled `*gzip.Reader` as an OBJECT WITH STATE (`residue`) taken from / returned to a pool,
     `Reset` onto the new body with its error dropped, the deferred release on every path,
@@ -33,6 +35,29 @@ which both decompressors keep and return again on every later `Read`.
 -/
 import Restful.Go.Str
 namespace Restful
+
+namespace Str
+
+/-- entity_accessors.go:73-91, the reverse lookup of `accessorAt` (shared by the entity READ side,
+    `Entity.accessorAt`, and the WRITE side, `Mime.accessorAt`): `k` is the key the loop over the
+    registered `keys` ends with on the value `v` —
+      * `k` occurs in `v`, its first occurrence being at `i = strings.Index(v, k)`, and
+      * no key occurs earlier (`strings.Index(v, k') < i`), and
+      * no key whose first occurrence is at `i` as well is longer than `k`.
+    Two distinct keys never tie (equal position and equal length = equal strings,
+    `Entity.firstLongest_unique`), so on a Go map — distinct keys — at most one key qualifies, in
+    whatever order the map is iterated; one does as soon as any key occurs
+    (`Entity.firstLongest_exists`). -/
+def firstLongest (keys : List Str) (v k : Str) : Bool :=
+  match indexSub k v with
+  | none => false
+  | some i => keys.all fun k' =>
+    match indexSub k' v with
+    | none => true
+    | some j => decide (i < j) || (i == j && decide (k'.length ≤ k.length))
+
+end Str
+
 namespace Entity
 open Str
 
@@ -144,10 +169,19 @@ def dedup : List Kind → List Kind
   | [] => []
   | k :: ks => k :: (dedup ks).filter (· != k)
 
-/-- entity_accessors.go:69-84 `accessorAt`: exact key; else `for k, v := range accessors { if
-    strings.Contains(mime, k) { return v } }` — every reader the iteration order can produce.
-    `[]` is `ok == false`. -/
+/-- entity_accessors.go:69-93 `accessorAt`: exact key; else the reader of the registered key that
+    occurs first in the value, the longest of those that start there (`Str.firstLongest`).  The
+    answer stays a list: `[]` is `ok == false`, and on a registry that is a map (distinct keys) it
+    never has more than one element (`Entity.accessorAt_length_le_one`). -/
 def accessorAt (reg : List (Str × Kind)) (mime : Str) : List Kind :=
+  match reg.find? (fun e => e.1 == mime) with
+  | some e => [e.2]
+  | none => dedup ((reg.filter (fun e => firstLongest (reg.map (·.1)) mime e.1)).map (·.2))
+
+/-- the lookup as it was BEFORE 8b400b4 (`for k, v := range accessors { if strings.Contains(mime,
+    k) { return v } }`): every reader the iteration order of the map could produce.  Only the
+    former class `f62` below is defined with it. -/
+def accessorAtAnyOrder (reg : List (Str × Kind)) (mime : Str) : List Kind :=
   match reg.find? (fun e => e.1 == mime) with
   | some e => [e.2]
   | none => dedup ((reg.filter (fun e => containsSub e.1 mime)).map (·.2))
@@ -158,6 +192,15 @@ def accessorsFor (cfg : Cfg) (ct : Str) : List Kind :=
   | [] => if cfg.dflt.isEmpty then [] else accessorAt cfg.registry cfg.dflt
   | ks => ks
 
+/-- FORMER class F62 "ambiguous Content-Type" (repaired by 8b400b4; a coverage class, no theorem
+    assumes anything about it any more): two registered keys with different readers are substrings
+    of the Content-Type value (of the default, when the lookup falls back to it) and none is equal
+    to it — before the repair the iteration order of the Go map chose between them. -/
+def f62 (cfg : Cfg) (ct : Str) : Bool :=
+  decide ((match accessorAtAnyOrder cfg.registry ct with
+           | [] => if cfg.dflt.isEmpty then [] else accessorAtAnyOrder cfg.registry cfg.dflt
+           | ks => ks).length > 1)
+
 /-- which branch of the lookup answered (coverage tag of the driver) -/
 def lookupTag (cfg : Cfg) (ct : Str) : String :=
   let viaDefault := (accessorAt cfg.registry ct).isEmpty
@@ -166,7 +209,7 @@ def lookupTag (cfg : Cfg) (ct : Str) : String :=
   else
     (if viaDefault then "default-" else "") ++
     (if (cfg.registry.find? (fun e => e.1 == key)).isSome then "exact"
-     else if (accessorsFor cfg ct).length > 1 then "ambiguous" else "substring")
+     else if f62 cfg ct then "first-of-several" else "substring")
 
 /-! ### results -/
 
@@ -194,7 +237,8 @@ def entityRead {Value : Type} (C : Codec Value) (cfg : Cfg) (k : Kind) (s : Stre
   | some v => .ok v
   | none => .err (if s.clean then .badSyntax else .badEncoding)
 
-/-- request.go:99-110: every result the lookup allows, one per possible reader kind -/
+/-- request.go:99-110: the result of the lookup and the read (a list that follows `accessorsFor`:
+    one element on every registry with distinct keys) -/
 def lookupAndRead {Value : Type} (C : Codec Value) (cfg : Cfg) (ct : Str) (s : Stream) : List (Result Value) :=
   match accessorsFor cfg ct with
   | [] => [.err .noReader400]
@@ -260,8 +304,8 @@ inductive Decoder where
   deriving DecidableEq, Repr
 
 structure Outcome (Value : Type) where
-  /-- every result the map iteration order allows (one per possible reader kind); a singleton
-      whenever the reader is determined -/
+  /-- the result (one per reader kind `accessorsFor` lists: a singleton on every registry with
+      distinct keys, `Entity.readEntity_results_length`) -/
   results : List (Result Value)
   pool : Pool
   /-- acquire / use of the request body / release of a pooled reader, in program order -/
@@ -281,10 +325,8 @@ def drain {Value : Type} (s : Stream) : Result Value → Result Value
   | .err k => .err k
 
 /-- the pooled reader object as the deferred release hands it back (request.go:85), as a function
-    of what happened between `Reset` and the return.  `read` lists the entity reader's possible
-    results; when the Content-Type is ambiguous (class F62) the state recorded is the one after the
-    first listed reader — only `residue` depends on that choice, and a reader object obeying
-    `reset_law` never shows its residue again. -/
+    of what happened between `Reset` and the return.  `read` is the entity reader's result (the
+    head of the list; the list has one element on every registry with distinct keys). -/
 def readerAfter {Value : Type} (C : Codec Value) (r1 : GzReader) (read : List (Result Value)) : GzReader :=
   match read with
   | .err .noReader400 :: _ => r1                                           -- :105 returned before anything was read from it
@@ -347,9 +389,10 @@ def writeEntity {Value : Type} (C : Codec Value) (k : Kind) (pretty : Bool) (v :
 def requestOf {Value : Type} (C : Codec Value) (k : Kind) (pretty : Bool) (v : Value) (ct : Str) (c : Coding) : RequestIn :=
   { contentType := ct, contentEncoding := c.header, body := encodeBody C c (writeEntity C k pretty v) }
 
-/-! ### the classes of the two deviations found (F62: hypothesis of the `_partial` theorems;
-    F61, repaired by 75d0593: no theorem assumes it any more — it remains as a coverage class that
-    the driver reports, so that the check can measure that its stream keeps visiting it) -/
+/-! ### the classes of the two deviations found, both repaired (F62 by 8b400b4 — `f62`, defined with
+    the lookup above; F61 by 75d0593): no theorem assumes either any more — they remain as
+    coverage classes that the driver reports, so that the check can measure that its stream keeps
+    visiting them -/
 
 /-- the stream the DECLARED coding yields on this body, read by a fresh decompressor
     (`none`: `zlib.NewReader` refuses the header) -/
@@ -371,10 +414,6 @@ def f61 {Value : Type} (C : Codec Value) (cfg : Cfg) (req : RequestIn) : Bool :=
   match declaredStream C req with
   | some s => !s.clean && (accessorsFor cfg req.contentType).any (fun k => docFor C cfg k s.data)
   | none => false
-
-/-- class F62 "ambiguous Content-Type": two registered keys with different readers are substrings
-    of the Content-Type value (and none is equal to it) -/
-def f62 (cfg : Cfg) (ct : Str) : Bool := decide ((accessorsFor cfg ct).length > 1)
 
 end Entity
 end Restful
